@@ -3208,10 +3208,10 @@ class XonshParser(Parser):
             return self.set_expr_context(a, Store)
         self._reset(mark)
         if (self.expect("(")) and (a := self.star_targets_tuple_seq(),) and (self.expect(")")):
-            return ast.Tuple(elts=a, ctx=Store, **self.span(_lnum, _col))
+            return ast.Tuple(elts=a or [], ctx=Store, **self.span(_lnum, _col))
         self._reset(mark)
         if (self.expect("[")) and (a := self.star_targets_list_seq(),) and (self.expect("]")):
-            return ast.List(elts=a, ctx=Store, **self.span(_lnum, _col))
+            return ast.List(elts=a or [], ctx=Store, **self.span(_lnum, _col))
         self._reset(mark)
         return None
 
@@ -3348,10 +3348,10 @@ class XonshParser(Parser):
             return self.set_expr_context(a, Del)
         self._reset(mark)
         if (self.expect("(")) and (a := self.del_targets(),) and (self.expect(")")):
-            return ast.Tuple(elts=a, ctx=Del, **self.span(_lnum, _col))
+            return ast.Tuple(elts=a or [], ctx=Del, **self.span(_lnum, _col))
         self._reset(mark)
         if (self.expect("[")) and (a := self.del_targets(),) and (self.expect("]")):
-            return ast.List(elts=a, ctx=Del, **self.span(_lnum, _col))
+            return ast.List(elts=a or [], ctx=Del, **self.span(_lnum, _col))
         self._reset(mark)
         return None
 
